@@ -15,3 +15,6 @@ func VerifC12SigOrder(sigs []*dns.RRSIG) []*dns.RRSIG {
 func VerifC12KeyOrder(keys []*dns.DNSKEY) []*dns.DNSKEY {
 	return uniqueSortedDNSKEYs(append([]*dns.DNSKEY(nil), keys...))
 }
+
+// VerifC12DSOrder is the order in which the validator walks the DS records of one set.
+func VerifC12DSOrder(records []dns.RR) []*dns.DS { return uniqueSortedDSRecords(records) }
